@@ -1199,7 +1199,7 @@ def legs(tier):
 
     npy, nto = len(pool(1, 'py')), len(pool(1, 'torch'))
     out.append(Leg('trees_py', fn_trees if quick else fn_trees3, tree_items('py', (1, 2)), chunk=4 if quick else 1,
-                   src_states=2 * npy * (npy + 1), timeout=3000,
+                   src_states=2 * npy * (npy + 1), timeout=9000,
                    bound='pyclifford N<=2, pool of %d atoms: all ordered atom pairs x 5 operators and all unary operators at depth 1; '
                          'x (5 operators x %d atoms x 2 sides + 3 unary) at depth 2%s' % (
                              npy, npy, '' if quick else '; depth 3: x (5 operators x core atom x 2 sides) on top of every depth-2 node whose second atom is a core atom')))
